@@ -125,7 +125,11 @@ def constructors():
     return out
 
 def build(desc):
-    """description ↦ live Component (may raise)"""
+    """description ↦ live Component (may raise); `fn='__raw__'` builds the dataclass directly
+    (`kind` = its type string, `args` = its value dictionary) — a component no constructor produced"""
+    if desc['fn'] == '__raw__':
+        from CircuitCalculator.Circuit.components import Component
+        return Component(type=desc['kind'], id=desc['id'], nodes=tuple(desc['nodes']), value=dict(desc['args']))
     f = constructors()[desc['fn']]
     kw = dict(desc['args'])
     if desc.get('id') is not None: kw['id'] = desc['id']
@@ -220,6 +224,8 @@ def random_circuit(rng, kinds, exact=True, n_nodes=None, n_extra=None, freqs=Non
     position.  Returns a list of component descriptions."""
     n = n_nodes or rng.randint(2, 5)
     pool = list(rng.choice(LABEL_POOLS)); rng.shuffle(pool)
+    while len(pool) < n:
+        pool.append(f'{pool[len(pool) % 7]}{len(pool)}')
     labels = pool[:n]
     ids = rng.choice(ID_STYLES)
     edges = [(labels[rng.randrange(k)], labels[k]) for k in range(1, n)]
@@ -255,7 +261,7 @@ def random_circuit(rng, kinds, exact=True, n_nodes=None, n_extra=None, freqs=Non
     return descs
 
 def pretty(descs):
-    return [f"{d['id']}:{d['fn']}({','.join(d['nodes'])}){d['args']}" for d in descs]
+    return [f"{d['id']}:{d['fn'] if d['fn'] != '__raw__' else 'Component(type=' + repr(d['kind']) + ')'}({','.join(d['nodes'])}){d['args']}" for d in descs]
 
 def is_open_switch(e) -> bool:
     """`NortenElement(Z=inf, V=0)`: what `elm.resistor(id, inf)` builds"""
